@@ -512,7 +512,7 @@ def _scan(repo, col, R="R-C06-scan"):
         raise AnalysisError("integrate no longer calls nested_checkpoint_scan")
     t = exg.term(call)
     kw = {k: v for k, v in t.kw.items()}
-    ok = t.args[0].op == "localfn" and "nested_lengths" in kw and "length" in kw
+    ok = t.args[0].op == "localfn" and idx.call_arg(repo, ig.file, t, "nested_lengths") is not None and idx.call_arg(repo, ig.file, t, "length") is not None
     col.check(ok, R, ig, "integrate scans its body function with length and nested_lengths", "", f"called with {t.short(160)}", node=call)
 
 
